@@ -80,8 +80,14 @@ def cases(tier, seed, phase):
             mode = rng.randrange(3)
             cuts = [] if mode == 0 else list(range(1, stream_len)) if (mode == 1 and stream_len < 400) else \
                 sorted(rng.sample(range(1, stream_len), min(8, stream_len - 1)))
-            return {'lmtp': lmtp, 'methods': ms, 'replies': [r.hex() for r in reps], 'cuts': cuts}
+            return {'lmtp': lmtp, 'methods': ms, 'replies': [r.hex() for r in reps], 'cuts': cuts, 'dup_rcpts': j % 4 == 3}
         yield mk
+
+
+def rcpt_addr(case, slot):
+    """The address of the RCPT command that owns reply slot `slot`; with dup_rcpts neighbouring slots share an address (an envelope may
+    list a recipient twice: one RCPT command, one reply, one LMTP data reply each)."""
+    return 'r%d@y' % (slot - slot % 2 if case.get('dup_rcpts') else slot)
 
 
 def run_garbage(case, model):
@@ -157,7 +163,7 @@ def run_case(case, model):
             elif m == 'mail':
                 returned.append(cl.mailfrom('s@x'))
             elif m == 'rcpt':
-                returned.append(cl.rcptto('r%d@y' % len(returned)))
+                returned.append(cl.rcptto(rcpt_addr(case, len(returned))))
             elif m == 'data':
                 returned.append(cl.data())
             elif m in ('senddata', 'sendempty'):
@@ -267,7 +273,7 @@ def run_case(case, model):
         di = 0
         for mth in case['methods']:
             if mth in ('senddata', 'sendempty'):
-                want = ['r%d@y' % s_ for s_ in rcpts if reps[s_][:1] == b'2']
+                want = [rcpt_addr(case, s_) for s_ in rcpts if reps[s_][:1] == b'2']
                 if di < len(data_addrs) and data_addrs[di] != want:
                     hits.append(hit('c10.lmtp-data-replies-mispaired', 'LMTP data replies are not paired with exactly the accepted recipients',
                                     observed=data_addrs[di], expected=want))
@@ -283,5 +289,5 @@ def run_case(case, model):
                 slot += 1
     tags = ['lmtp' if case['lmtp'] else 'smtp', 'pipelining' if b'PIPELINING' in reps[1] else 'no-pipelining',
             'failed=' + failed, 'len<=5' if len(case['methods']) <= 5 else 'len>5', 'cuts=%s' % ('0' if not case['cuts'] else 'some')]
-    key = (case['lmtp'], tuple(case['methods']), tuple(case['replies']), tuple(case['cuts']))
+    key = (case['lmtp'], tuple(case['methods']), tuple(case['replies']), tuple(case['cuts']), bool(case.get('dup_rcpts')))
     return CaseResult(mismatch, hits, key, tags)
